@@ -50,6 +50,13 @@ def base_cfgs(tier, fixed):
         cs.append(F.viaP([], [], order=order, menu=(1, 2)))
         cs.append(F.viaP([F.TOK["L"]], [F.TOK["F1"]], order=order, menu=(1, 2)))
     cs.append(F.viaP2([], [], []))
+    cs.append(F.viaP2([], [F.TOK["F1"]], []))
+    cs.append(F.viaPdup([], [F.TOK["F1"]], []))
+    cs.append(F.viaPdup([], [F.TOK["F1"]], [], order=("B", "P", "A")))
+    # fan-out behind a shared adapter with further adapters on the later branch (every one of them must be finalized once)
+    for order in (("A", "B", "C"), ("C", "B", "A")):
+        cs.append(F.fan3trunk([F.TOK["S"]], [], [F.TOK["S"], F.TOK["L"]], order=order))
+        cs.append(F.fan3trunk([F.TOK["S"], F.TOK["S"]], [F.TOK["L"]], [F.TOK["F1"], F.TOK["S"]], order=order))
     cs.append(F.viaPP([], [], []))
     cs.append(F.diamondP())
     for mat in ([["F", 4]], [["F", 2], ["F", 2]], [["U"]]):
